@@ -140,6 +140,12 @@ def run(ck):
             continue
         de = [cs for cs in b.calls() if cs.callee_body() is not None and cs.callee_body().qual == "EventLoop::dispatch_events" and not b.is_cleanup(cs.bb)]
         dd = [cs for cs in b.calls() if cs.callee_body() is not None and cs.callee_body().qual == "EventLoop::dispatch_idles" and not b.is_cleanup(cs.bb)]
+        if (not de or not dd) and q != "EventLoop::dispatch":
+            # delegation to EventLoop::dispatch (which is checked above) on every iteration is the same sequence
+            dsp = [cs for cs in b.calls() if cs.callee_body() is not None and cs.callee_body().qual == "EventLoop::dispatch" and not b.is_cleanup(cs.bb)]
+            if dsp:
+                ck.ok("4", "T3-must-precede", b, "idles-after-events", "%s runs its iterations through EventLoop::dispatch (events, then idles on Ok)" % q, site=b.where(dsp[0].bb))
+                continue
         if not de or not dd:
             ck.violation("4", "T3-must-precede", b, "idles-after-events", "%s does not run dispatch_events followed by dispatch_idles" % q, site=b.where())
             continue
